@@ -38,6 +38,32 @@ def tree_ok(case):
     return rec(case["tree"], True)
 
 
+def tree_ok_excl(tr):
+    """tree_ok with the exclusion patterns taken into account: where auto-exclusion applies, the
+    input directory holds a non-excluded lower-case .cmake file, and every directory with
+    non-excluded CMake files has a non-excluded lower-case .cmake one"""
+    case = tr.case
+    if not tree_ok(case):
+        return False
+    if "tree" not in case or not case.get("auto_exclude", True):
+        return True
+    tbl = {(tuple(rel), isd) for rel, isd in tr.excl_table()}
+
+    def rec(children, rel, top):
+        cm = [c["name"] for c in children if c["kind"] == "f" and is_cmake(c["name"])
+              and (rel + (c["name"],), False) not in tbl]
+        if cm and not any(n.endswith(".cmake") for n in cm):
+            return False
+        if top and not any(n.endswith(".cmake") for n in cm):
+            return False
+        for c in children:
+            if c["kind"] == "d" and (rel + (c["name"],), True) not in tbl:
+                if not rec(c["children"], rel + (c["name"],), False):
+                    return False
+        return True
+    return rec(case["tree"], (), True)
+
+
 def rand_patterns(rng, tree, input_abs_hint="in"):
     nodes = list(treeh.walk_tree(tree))
     if not nodes:
@@ -50,6 +76,14 @@ def rand_patterns(rng, tree, input_abs_hint="in"):
         d = rel[0]
         stem = name.split(".")[0]
         pats.append(form.format(name=name, dir=d, abs="/".join(("**",) + rel), stem=stem))
+    # patterns matching every CMake file of one directory
+    dirs = [(rel, n) for rel, n in nodes if n["kind"] == "d" and any(c["kind"] == "f" for c in n["children"])]
+    if dirs and rng.random() < 0.35:
+        rel, n = rng.choice(dirs)
+        if rng.random() < 0.5:
+            pats.append(rel[-1] + "/*.cmake")
+        else:
+            pats += [c["name"] for c in n["children"] if c["kind"] == "f" and is_cmake(c["name"])]
     # several patterns matching adjacent siblings
     if rng.random() < 0.4:
         sibs = [c["name"] for c in tree][:]
